@@ -15,6 +15,7 @@ func init() {
 }
 
 func runC16(ctx *core.Ctx) {
+	mkAbsShape(ctx, "U15")
 	c16Round5(ctx)
 	ctx.Trusted = append(ctx.Trusted, "go/types, go/ssa", "txtar.Format/Parse preserve untouched entries (a C03 round-trip law, not decided here)")
 	p := ctx.P
